@@ -32,8 +32,8 @@ pub fn err_info(e: &ThriftException) -> ErrInfo {
         ThriftException::Application(a) => format!("application:{}", a.kind().as_i32()),
     };
     let mut msg = e.message().to_string();
-    if msg.len() > 160 {
-        let mut cut = 160;
+    if msg.len() > 2000 {
+        let mut cut = 2000;
         while !msg.is_char_boundary(cut) {
             cut -= 1;
         }
